@@ -46,6 +46,12 @@ CHECKS = {
    text="diff(H1,H2) for random ordered pairs of antichains (both directions, empty heads, current heads) of conflict-rich histories (counters with concurrent increments, overwritten/deleted values, lists, nested objects, text). The only thing demanded of a patch list is its effect on the view (winners, ids, conflict flags, counter values, list order, text).", ref="§6 C08"),
  "C09": dict(cat="model_checking", tech="TLA+ trace validation (TLC, Trace_View): patches of every mutating call (*_log_patches variants) folded by View!ApplyPatches over the previous projection must equal the new projection",
    text="Transactions (incl. transaction_at), apply_changes single/batch/out-of-order, load_incremental and merge on 2-4 replicas with conflicted registers, counters, lists, nested objects and text. Three deliberate/unrepaired deviations of the implementation are listed known findings (narrow classes); any other divergence is reported.", ref="§6 C09"),
+ "C24": dict(cat="model_checking", tech="TLA+ trace validation (TLC): Trace_Interp (OpSet!Width per encoding: length, per-unit reads, marks/get_marks/spans/cursor indexes in units, spans concatenate to text) + Trace_Seq (splice_text/delete/mark arguments act in units)",
+   text="Text editing programs over an alphabet of 1-4 unit characters under all four encodings on 2-3 replicas with merges, isolated transactions and historical reads; the specification owns the width table and the UAX#29 subset. Grapheme clusters spanning several elements are a listed known finding (length is summed per element).", ref="§6 C24"),
+ "C25": dict(cat="model_checking", tech="TLA+ trace validation (TLC): Trace_Interp (marks()/get_marks(i)/spans() = OpSet!UnitMarks, the Peritext reading of the decoded mark ops; OpSet!ExpandHolds for insertions at mark boundaries) + Trace_Seq (mark/unmark change exactly [start,end)) + Trace_Same on mark-bearing histories",
+   text="Histories of text edits interleaved with mark/unmark over overlapping ranges, 2 names, null values, all expand settings, 2-3 replicas, merges, isolated transactions, invalid ranges, reads at historical heads.", ref="§6 C25"),
+ "C26": dict(cat="model_checking", tech="TLA+ trace validation (TLC, Trace_Interp): remembered cursors resolved at the end and at historical heads must equal OpSet!CursorPos; get_cursor_position(get_cursor(i)) = i in every projected state, for both move modes and the byte/string forms",
+   text="List and text histories with deletes, puts on elements, concurrent edits and merges; cursors of both move modes taken at random points and resolved on every replica later and at random antichains of heads.", ref="§6 C26"),
 }
 
 NA_REASON = "check not built yet in this session (framework under construction; see DESIGN.md §10 build order)"
